@@ -92,6 +92,7 @@ class Registry:
         self.ufuns: Dict[str, tuple] = {}
         self.writer_rules: list = []
         self.native: list = []
+        self.scans: list = []
         self.dispatch: Dict[str, Contract] = {}
 
     def dispatch_contract(self, key, **kw):
@@ -99,6 +100,10 @@ class Registry:
         kw["verify"] = False
         self.dispatch[key] = Contract(key, **kw)
         return self.dispatch[key]
+
+    def scan(self, prop, name, fn):
+        """Whole-tree syntactic scan (pyvc.scans): fn() -> list of obligation dicts."""
+        self.scans.append({"prop": prop, "name": name, "fn": fn})
 
     def native_bounded(self, prop, name, script, bound, what):
         """Bounded stand-in executed natively on the real functions (exhaustive small scope); never counted as proved."""
@@ -142,6 +147,7 @@ invariant = REG.invariant
 ufun = REG.ufun
 writers = REG.writers
 native_bounded = REG.native_bounded
+scan = REG.scan
 dispatch_contract = REG.dispatch_contract
 
 
